@@ -1,6 +1,7 @@
 //! Correspondence harness for rdest: runs the real implementation (built from /repo's working tree
 //! with `--features verif`) on generated or replayed cases and prints one line per case:
 //! `<PROP> <args…> | <canonical implementation result>`.
+mod conn;
 mod util;
 mod wire;
 
@@ -9,6 +10,7 @@ use util::Rng;
 
 fn run_line(prop: &str, args: &[&str]) -> String {
     match prop {
+        "C06" => conn::run(args),
         "C07" => wire::run(args),
         _ => panic!("unknown property {}", prop),
     }
@@ -16,6 +18,7 @@ fn run_line(prop: &str, args: &[&str]) -> String {
 
 fn gen(prop: &str, rng: &mut Rng, n: usize) -> Vec<String> {
     match prop {
+        "C06" => conn::gen(rng, n),
         "C07" => wire::gen(rng, n),
         _ => panic!("unknown property {}", prop),
     }
